@@ -14,6 +14,7 @@
 import YashModel.Fork.RedirLemmas
 import YashModel.Fork.SigLemmas
 import YashModel.Fork.PlumbLemmas
+import YashModel.Fork.PipeBridge
 import YashModel.Fork.Fields
 import YashModel.Fork.Lemmas
 import YashModel.Fork.SharedLemmas
@@ -1219,7 +1220,7 @@ example :
     ends are closed, its dispositions and mask, and the starter's cwd / umask / limit. -/
 theorem kind_entry_on_shared_table (copied : List (String × String)) (s : SysState) (child : Nat) (env : Env)
     (hs : s.processes.get child = some env.system) (k : Kind) (jc ii ks : Bool) (rp r w : Nat)
-    (he : PipeEnds env.system rp r w) :
+    (he : PipeEnds k jc env.system rp r w) :
     ∃ cs : List Call,
       (∀ q, q ≠ child → (s.run copied (cs.map fun c => (child, .call c))).processes.get q = s.processes.get q)
       ∧ ∃ q', (s.run copied (cs.map fun c => (child, .call c))).processes.get child = some q'
@@ -1232,15 +1233,20 @@ theorem kind_entry_on_shared_table (copied : List (String × String)) (s : SysSt
   obtain ⟨g1, g2, g3, g4, g5, g6⟩ := f1
   -- the process after the reset still holds the ends
   let env1 : Env := { subshellEntry ii ks env with system := runCalls env.system cs1 }
-  have he1 : PipeEnds env1.system rp r w := by
-    obtain ⟨hr, hw, hp, a, b, c, d, e, f, a0, a1⟩ := he
-    have hfa : ∀ n, fdAllowed (runCalls env.system cs1) n = fdAllowed env.system n := by
-      intro n; unfold fdAllowed nofileLimit; rw [g6]
-    exact ⟨by show (fdGet (runCalls env.system cs1).fds r).isSome = true; rw [g1]; exact hr,
-      by show fdGet (runCalls env.system cs1).fds w = _; rw [g1]; exact hw,
-      by show fdGet (runCalls env.system cs1).fds rp = _; rw [g1]; exact hp,
-      a, b, c, d, e, f, by show fdAllowed (runCalls env.system cs1) 0 = true; rw [hfa]; exact a0,
-      by show fdAllowed (runCalls env.system cs1) 1 = true; rw [hfa]; exact a1⟩
+  have hfa : ∀ n, fdAllowed (runCalls env.system cs1) n = fdAllowed env.system n := by
+    intro n; unfold fdAllowed nofileLimit; rw [g6]
+  have he1 : PipeEnds k jc env1.system rp r w := by
+    obtain ⟨hn, hp, hb, hz⟩ := he
+    refine ⟨fun h => ?_, fun h => ?_, hb, fun h1 h2 => ?_⟩
+    · obtain ⟨a, b, c, d, e, f⟩ := hn h
+      exact ⟨by show (fdGet (runCalls env.system cs1).fds r).isSome = true; rw [g1]; exact a,
+        by show fdGet (runCalls env.system cs1).fds w = _; rw [g1]; exact b, c, d, e,
+        by show fdAllowed (runCalls env.system cs1) 1 = true; rw [hfa]; exact f⟩
+    · obtain ⟨a, b, c⟩ := hp h
+      exact ⟨by show fdGet (runCalls env.system cs1).fds rp = _; rw [g1]; exact a, b,
+        by show fdAllowed (runCalls env.system cs1) 0 = true; rw [hfa]; exact c⟩
+    · show fdAllowed (runCalls env.system cs1) 0 = true
+      rw [hfa]; exact hz h1 h2
   obtain ⟨p1, p2⟩ := plumb_is_own_calls' k jc env1 rp r w he1
   obtain ⟨t1, t2⟩ := own_calls_on_table copied child (cs1 ++ plumbCalls k jc rp r w) s env.system hs
   refine ⟨cs1 ++ plumbCalls k jc rp r w, t2, _, t1, ?_, ?_, ?_, ?_, ?_⟩
@@ -1261,7 +1267,7 @@ theorem kind_entry_on_shared_table (copied : List (String × String)) (s : SysSt
 example :
     let pe : FdEntry := { label := "pipe" }
     let q : Proc := { baseEnv.system with fds := fdPut (fdPut (fdPut baseEnv.system.fds 3 pe) 4 pe) 5 pe }
-    (fdGet q.fds 4).isSome = true ∧ fdGet q.fds 5 = some { label := "pipe" } ∧ fdGet q.fds 3 = some { label := "pipe" }
+    (fdGet q.fds 4).isSome = true ∧ fdGet q.fds 5 = some pe ∧ fdGet q.fds 3 = some pe
     ∧ fdAllowed q 0 = true ∧ fdAllowed q 1 = true
     ∧ (runCalls q (plumbCalls .pipeM false 3 4 5)).fds
         = [(0, { label := "pipe" }), (1, { label := "pipe" }), (2, { label := "err" })] := by
@@ -1358,5 +1364,142 @@ example :
     (parentSide .async initialEnv [.yield, .umask "027", .yield]).env.system.umask
       = (parentSide .async initialEnv [.umask "027"]).env.system.umask
     ∧ (parentSide .async initialEnv [.yield, .umask "027", .yield]).events = [] := by decide
+
+/-! ## Part 11 — `PipeEnds` discharged from C13's model of the starter's side of a pipeline -/
+
+/-- which kind of subshell stage `k` of an `n`-stage pipeline is -/
+def stageKind (n k : Nat) : Kind := if k = 0 then .pipeF else if k + 1 < n then .pipeM else .pipeL
+
+/-- ★★ Composition with C13 (`Proc/ForkLoop.lean`: `PipeSet::shift` + the fork loop, any allocation policy `A`;
+    `forkLoop_spec`).  A pipeline of `n ≥ 2` stages started from a table `T0` without pipe ends, stdin and stdout open:
+    (1) after the loop the STARTER's table is `T0` again — every descriptor it opened for the pipeline is closed
+    (C13's `forkLoop_spec`); (2) for EVERY stage `k`, any process `q` of this model that is a concrete version
+    (`AbsTab`) of the table the stage inherited at its fork satisfies `PipeEnds` for that stage's kind, with the
+    descriptors of the `PipeSet` it was handed — so `kind_entry_on_shared_table` applies to every stage of every
+    pipeline with no hypothesis about pipe ends left; in particular `read_previous = 1` cannot occur here (that corner
+    of `move_to_stdin_stdout` needs stdout closed in the starter; C13's `move_exact` covers it on the abstract table). -/
+theorem pipeline_stage_pipeEnds {A : YashModel.Proc.Alloc} {n : Nat} {T0 Tf : YashModel.Proc.FdTab}
+    {cs : List (YashModel.Proc.FdTab × YashModel.Proc.PipeSet)} {psf : YashModel.Proc.PipeSet}
+    (h0 : YashModel.Proc.NoPipe T0) (hin : (T0 0).isSome = true) (hout : (T0 1).isSome = true) (hn : 2 ≤ n)
+    (hrun : YashModel.Proc.forkLoop A 0 n T0 { readPrevious := none, next := none } = some (cs, Tf, psf))
+    (k : Nat) (Tk : YashModel.Proc.FdTab) (psk : YashModel.Proc.PipeSet) (hk : cs[k]? = some (Tk, psk))
+    (q : Proc) (habs : AbsTab q Tk) (a0 : fdAllowed q 0 = true) (a1 : fdAllowed q 1 = true) (jc : Bool) :
+    (∀ fd, Tf fd = T0 fd)
+    ∧ ∃ rp r w, PipeEnds (stageKind n k) jc q rp r w
+        ∧ (needsNext (stageKind n k) = true → psk.next = some (r, w))
+        ∧ (needsPrev (stageKind n k) = true → psk.readPrevious = some rp) := by
+  obtain ⟨hlen, hTf, _, hall⟩ := YashModel.Proc.forkLoop_spec h0 n 0 T0 _ cs Tf psf
+    (YashModel.Proc.loopInv_init h0 _ _) (by simp) hrun
+  obtain ⟨hinv, hrp, hnx⟩ := hall k Tk psk hk
+  have hklt : k < n := by
+    have := (List.getElem?_eq_some_iff.mp hk).1
+    omega
+  have hnext : needsNext (stageKind n k) = true → psk.next = some ((psk.next.getD (0, 0)).1, (psk.next.getD (0, 0)).2) := by
+    intro h
+    have hlt : k + 1 < n := by
+      unfold stageKind at h
+      by_cases c0 : k = 0
+      · omega
+      · by_cases c1 : k + 1 < n
+        · exact c1
+        · simp [c0, c1, needsNext] at h
+    have : psk.next.isSome = true := by rw [hnx]; simp [hlt]
+    cases hh : psk.next with
+    | none => rw [hh] at this; cases this
+    | some v => rfl
+  have hprev : needsPrev (stageKind n k) = true → psk.readPrevious = some (psk.readPrevious.getD 0) := by
+    intro h
+    have hpos : 0 < k := by
+      unfold stageKind at h
+      by_cases c0 : k = 0
+      · simp [c0, needsPrev] at h
+      · omega
+    have : psk.readPrevious.isSome = true := by rw [hrp]; simp [hpos]
+    cases hh : psk.readPrevious with
+    | none => rw [hh] at this; cases this
+    | some v => rfl
+  exact ⟨hTf, _, _, _, pipeEnds_of_loopInv _ jc q T0 Tk psk _ _ _ _ _ habs hinv hin hout a0 a1 hnext hprev,
+    hnext, hprev⟩
+
+/-! ## Part 12 — writers of the shared records; two concurrently running children -/
+
+/-- ★ "Never mutated through the `Rc`" for the records `env_cells_classified` calls `sharedImmutable` (`Rc<Code>`,
+    `Rc<Source>`, `Rc<Alias>`, `Rc<Function<S>>`, `Rc<str>`, `Rc<dyn FunctionBodyObject<S>>`), checked against the
+    writers: a value behind an `Rc` that has no interior cell (the cells are exactly the rows of `interiorCells`) can
+    be written only through `Rc::get_mut` (answers `None` while another `Rc` points to it), `Rc::make_mut` (clones
+    first while it is shared: the writer gets a copy of its own) or unsafe code.  Re-extracted on every run: the only
+    such call is the `make_mut` of `typeset -fr` (set_functions.rs: copy-on-write of the `Function` — a subshell marking
+    a function read-only gets its own copy), there is no `get_mut_unchecked`, and `unsafe` outside the FFI layer occurs
+    in exactly three files, none of which writes a shared record (the executor helper's `spawn_pinned`, the
+    `Rc::from_raw` transparent cast at function DEFINITION, `RealSystem::new`).  A new site breaks this proof. -/
+theorem shared_records_writers :
+    Generated.ForkMaps.rcMutSites = [("yash-builtin/src/typeset/set_functions.rs", "make_mut")]
+    ∧ (∀ s ∈ Generated.ForkMaps.rcMutSites, s.2 ≠ "get_mut_unchecked")
+    ∧ Generated.ForkMaps.unsafeFiles
+        = ["yash-cli/src/lib.rs", "yash-env/src/executor_helper.rs",
+           "yash-semantics/src/command/function_definition.rs"] := by decide
+
+/-- ★★ Two concurrently running children (two members of a pipeline, an asynchronous list and a foreground subshell):
+    under EVERY interleaving of their system calls on the shared table each child's entry is its own calls applied to
+    what it had, and every other entry — the starter's — is untouched: the starter's process state after both have
+    finished does not depend on the schedule.  (`interleaving_isolated` with the two children in the roles of "parent"
+    and "child"; the executor schedules driven for it: sweep 1i.) -/
+theorem two_children_isolated (copied : List (String × String)) (s : SysState) (c1 c2 : Nat) (hne : c1 ≠ c2)
+    (p1 p2 : Proc) (h1 : s.processes.get c1 = some p1) (h2 : s.processes.get c2 = some p2)
+    (sched : List (Bool × Call)) :
+    (s.run copied (schedOf c1 c2 sched)).processes.get c1
+        = some (runCalls p1 ((sched.filter (fun x => !x.1)).map (·.2)))
+    ∧ (s.run copied (schedOf c1 c2 sched)).processes.get c2
+        = some (runCalls p2 ((sched.filter (fun x => x.1)).map (·.2)))
+    ∧ ∀ starter, starter ≠ c1 → starter ≠ c2 →
+        (s.run copied (schedOf c1 c2 sched)).processes.get starter = s.processes.get starter :=
+  run_two copied c1 c2 hne sched s p1 p2 h1 h2
+
+/-- … for the pipeline kinds, with what the members do expressed in the shell-level model: whatever process-level
+    mutators (`umask`, `cd`, `ulimit -n`, `exec` redirections) the two members perform, in whatever order their calls
+    reach the table, the starter's entry is the one it had when it forked them. -/
+theorem pipeline_members_leave_starter (copied : List (String × String)) (s : SysState) (starter c1 c2 : Nat)
+    (hne : c1 ≠ c2) (hs1 : starter ≠ c1) (hs2 : starter ≠ c2) (sh1 sh2 : Shell)
+    (h1 : s.processes.get c1 = some sh1.env.system) (h2 : s.processes.get c2 = some sh2.env.system)
+    (op1 op2 : Op) (ho1 : op1.processLevel = true) (ho2 : op2.processLevel = true) :
+    ∃ cs1 cs2 : List Call,
+      (applyOpCore sh1 op1).env.system = runCalls sh1.env.system cs1
+      ∧ (applyOpCore sh2 op2).env.system = runCalls sh2.env.system cs2
+      ∧ ∀ sched : List (Bool × Call),
+          (sched.filter (fun x => !x.1)).map (·.2) = cs1 → (sched.filter (fun x => x.1)).map (·.2) = cs2 →
+          (s.run copied (schedOf c1 c2 sched)).processes.get c1 = some (applyOpCore sh1 op1).env.system
+          ∧ (s.run copied (schedOf c1 c2 sched)).processes.get c2 = some (applyOpCore sh2 op2).env.system
+          ∧ (s.run copied (schedOf c1 c2 sched)).processes.get starter = s.processes.get starter := by
+  obtain ⟨cs1, e1⟩ := process_mutators_are_own_calls sh1 op1 ho1
+  obtain ⟨cs2, e2⟩ := process_mutators_are_own_calls sh2 op2 ho2
+  refine ⟨cs1, cs2, e1, e2, fun sched f1 f2 => ?_⟩
+  obtain ⟨r1, r2, r3⟩ := two_children_isolated copied s c1 c2 hne _ _ h1 h2 sched
+  exact ⟨by rw [r1, f1, e1], by rw [r2, f2, e2], r3 starter hs1 hs2⟩
+
+/-- A pipeline, a command substitution or a here-document started by a subshell that has no descriptors to spare
+    (`Pipe::pipe` / `open_tmpfile` / the saving `dup` answer EMFILE) fails IN that subshell: whether it can be set up
+    or not, the subshell's own environment — every field, its process included — is what it was (the failure ends the
+    subshell with 126 / 2, or, for the here-document of a regular built-in, leaves status 2), so a fortiori
+    (`subshell_isolated_nested`) the starter's. -/
+theorem descriptor_hungry_commands_change_nothing (sh : Shell) (op : Op) (h : op = .pl ∨ op = .cs ∨ op = .hd) :
+    (applyOpCore sh op).env = sh.env
+    ∧ ((applyOpCore sh op).halted.isSome = true →
+        (op = .pl ∧ pipeOk sh.env.system = false ∧ (applyOpCore sh op).halted = some 126)
+        ∨ (op = .cs ∧ pipeOk sh.env.system = false ∧ (applyOpCore sh op).halted = some 2)
+        ∨ sh.halted.isSome = true) := by
+  rcases h with rfl | rfl | rfl
+  · simp only [applyOpCore]
+    cases hp : pipeOk sh.env.system <;> simp [exitShell]
+  · simp only [applyOpCore]
+    cases hp : pipeOk sh.env.system <;> simp [exitShell]
+  · simp only [applyOpCore]
+    cases hp : hereDocOk sh.env.system <;> simp
+
+/-- non-vacuity: with descriptors 0-3 in use and a soft limit of 4 neither a pipe nor a here-document can be set up;
+    with the limit at 16 both can -/
+example :
+    let p4 : Proc := { baseEnv.system with nofile := some 4, fds := fdPut baseEnv.system.fds 3 { label := "f1" } }
+    let p16 : Proc := { p4 with nofile := some 16 }
+    pipeOk p4 = false ∧ hereDocOk p4 = false ∧ pipeOk p16 = true ∧ hereDocOk p16 = true := by decide
 
 end YashModel.Fork
